@@ -100,6 +100,7 @@ class Run:
         self.heap = {}
         self.old_heap = None
         self.old_alias = {}    # alias oid -> base oid (old-state views)
+        self.alias_heap = {}   # alias oid -> the saved heap it reads (default: old_heap)
         self.templates = {}    # oid -> factory for lazily shared symbolic records
         self.sym_oids = {}
         self.next_oid = 1
@@ -208,17 +209,19 @@ class Run:
         self.heap[oid] = rec
         return oid
 
-    def old_view(self, ref):
-        """reference to the entry-state (old) version of a heap record"""
+    def old_view(self, ref, heap=None, tag="old"):
+        """reference to the entry-state (old) version of a heap record (or its version in another saved heap)"""
         if ref.oid in self.old_alias:
             return ref
-        key = ("old", ref.oid)
+        key = (tag, ref.oid)
         oid = self.sym_oids.get(key)
         if oid is None:
             oid = self.next_oid
             self.next_oid += 1
             self.sym_oids[key] = oid
             self.old_alias[oid] = ref.oid
+            if heap is not None:
+                self.alias_heap[oid] = heap
         return VRef(oid, ref.kind, ref.cls)
 
     def base_oid(self, oid):
@@ -227,13 +230,14 @@ class Run:
     def rec(self, oid):
         if oid in self.old_alias:
             base = self.old_alias[oid]
-            r = self.old_heap.get(base)
+            heap = self.alias_heap.get(oid, self.old_heap)
+            r = heap.get(base)
             if r is None:
                 f = self.templates.get(base)
                 if f is None:
                     raise Unsupported(f"object allocated during the call has no old state")
                 r = f()
-                self.old_heap[base] = r
+                heap[base] = r
             return r
         r = self.heap.get(oid)
         if r is None:
